@@ -248,6 +248,19 @@ pub fn run_runs(seed: u64, tier: &str, out: &mut dyn FnMut(String)) {
         st.configuration.eval_push_limit = *r.pick(&[-1, 0, 1, 2, 3, 5, 10, 40, 200, m as i32 - 1, m as i32, m as i32 + 1]);
         st.configuration.growth_cap = *r.pick(&[0, 1, 2, 3, 5, 8, 500, 500]);
         st.configuration.eval_time_limit = 600_000;
+        // timed cases: a diverging program stopped by a large step budget (several ms of work) under a
+        // time limit of 2 s. The limit is read in milliseconds; a run that reports TimeLimitExceeded although
+        // far less wall-clock time has passed contradicts the manual accounting (StepLimitExceeded)
+        let timed = case % 50 == 49;
+        if timed {
+            st.exec_stack.flush();
+            st.exec_stack.push(Item::list(vec![Item::instruction("INTEGER.+".to_string()), Item::instruction("INTEGER.DUP".to_string())]));
+            st.exec_stack.push(Item::instruction("EXEC.Y".to_string()));
+            st.exec_stack.push(Item::int(1));
+            st.configuration.eval_push_limit = 4000;
+            st.configuration.growth_cap = 500;
+            st.configuration.eval_time_limit = 2000;
+        }
         // the envelope: no size-operand instruction may see a huge operand; keep programs small
         let pre = enc_state(&st);
         let mut st2 = match parse_line(&pre).and_then(|v| dec_state(&v[0])) {
@@ -256,10 +269,15 @@ pub fn run_runs(seed: u64, tier: &str, out: &mut dyn FnMut(String)) {
         };
         let nid = next_node_id();
         out(format!("#c run {}", case));
+        let t0 = std::time::Instant::now();
         let r1 = catch_unwind(AssertUnwindSafe(|| {
             let o = PushInterpreter::run(&mut st, &mut iset);
             (o, st)
         }));
+        if timed && t0.elapsed().as_millis() >= 1000 {
+            // the host really was that slow: nothing can be concluded from this case
+            continue;
+        }
         let r2 = catch_unwind(AssertUnwindSafe(|| {
             let (o, k) = manual_run(&mut iset2, &mut st2);
             (o, k, st2)
